@@ -211,6 +211,10 @@ def run(run, binfo):
             nend += 1
             run.evaluations += 1
             with tempfile.NamedTemporaryFile('r', suffix='.' + fmt, dir=work_dir()) as tf:
+                if j % 8 == 0:
+                    # regenerating over an older, longer sample
+                    with open(tf.name, 'w') as old_f:
+                        old_f.write('"stale:rule": "role:stale"\n' * 400)
                 try:
                     with mock.patch.object(generator, 'get_policies_dict', return_value=spread):
                         generator._generate_sample(list(spread), tf.name, fmt, include_help=True, exclude_deprecated=ex)
